@@ -989,8 +989,21 @@ func newRlua() *rlua {
 		defer func() {
 			if x := recover(); x != nil {
 				if e, ok := x.(rerror); ok {
-					// the handler runs once with the error value; its first result is returned
-					out = []rval{LFalse, first(r.call(args[1], []rval{e.v}))}
+					// the handler runs once with the error value; its first result is returned.  A handler that
+					// raises in turn makes xpcall return false with an implementation-defined second value
+					// (templates observe only the boolean in that case).
+					func() {
+						defer func() {
+							if y := recover(); y != nil {
+								if e2, ok := y.(rerror); ok {
+									out = []rval{LFalse, e2.v}
+									return
+								}
+								panic(y)
+							}
+						}()
+						out = []rval{LFalse, first(r.call(args[1], []rval{e.v}))}
+					}()
 					return
 				}
 				panic(x)
